@@ -1155,6 +1155,165 @@ fn fresh_parent(cfg: &Cfg, rep: &mut Report) {
     }
 }
 
+// ---------------------------------------------------------------------------------------------
+// Products inside thread pools of other sizes (stream 7)
+//
+// "For all conformable shapes" quantifies over the operands, not over the machine: the same product
+// must come out on a laptop and on a 128-thread node. The size of rayon's current pool is the one piece
+// of "machine" a library call can see, and `ThreadPool::install` lets a caller choose it. Part of the
+// product workload (matmul with all four flag pairs, matmul_blocked, xtx, the Dot methods) therefore runs
+// inside pools of 1, 2, 3, 17, 33, 48, 64 and 128 threads, on shapes up to 64 that put few rows against
+// many columns (fewer rows than the pool has workers, and the transposed / short-inner counterparts),
+// vector operands and ordinary shapes. Integer entries: the equality oracle applies, and every result is
+// also compared bit for bit with the same call outside any pool.
+
+const POOL_SIZES: [usize; 8] = [1, 2, 3, 17, 33, 48, 64, 128];
+const POOL_SHAPES: [&str; 5] = ["pool:shape=few-rows", "pool:shape=few-cols", "pool:shape=short-inner", "pool:shape=ordinary", "pool:shape=vector-operand"];
+
+type DotOut = (Option<[usize; 2]>, Vec<f64>);
+
+/// One unguarded Dot-trait call (see `dot_case_at` for the conventions).
+fn dot_call(kind: usize, meth: usize, form: usize, a: &[f64], ar: usize, ac: usize, b: &[f64], br: usize, bc: usize) -> DotOut {
+    match kind {
+        MM => {
+            let ma = Matrix::new(a.to_vec(), ar as i32, ac as i32);
+            let mb = Matrix::new(b.to_vec(), br as i32, bc as i32);
+            let r: Matrix = methods!(Matrix, Matrix, Matrix, meth, form, &ma, &mb);
+            (Some([r.nrows, r.ncols]), r.data.v.clone())
+        }
+        MV => {
+            let ma = Matrix::new(a.to_vec(), ar as i32, ac as i32);
+            let vb = Vector::new(b.to_vec());
+            let r: Vector = methods!(Matrix, Vector, Vector, meth, form, &ma, &vb);
+            (None, r.v)
+        }
+        VM => {
+            let va = Vector::new(a.to_vec());
+            let mb = Matrix::new(b.to_vec(), br as i32, bc as i32);
+            let r: Vector = methods!(Vector, Matrix, Vector, meth, form, &va, &mb);
+            (None, r.v)
+        }
+        _ => {
+            let va = Vector::new(a.to_vec());
+            let vb = Vector::new(b.to_vec());
+            let r: f64 = methods!(Vector, Vector, f64, meth, form, &va, &vb);
+            (None, vec![r])
+        }
+    }
+}
+
+/// Judge one in-pool result: no panic, shape, entries (equality with the definition on integer data),
+/// and bitwise agreement with the same call outside any pool. `api` = "matmul" / "blocked" / "xtx" / "dot".
+fn pool_judge(rep: &mut Report, api: &str, regime: &str, got: &Result<DotOut, String>, outside: &Result<DotOut, String>, e: &Expect, detail: &dyn Fn(Value) -> Value) {
+    rep.case(regime);
+    let show = |r: &Result<DotOut, String>| match r {
+        Ok((s, d)) => json!({"matrix_shape": s, "len": d.len(), "data": jf(d)}),
+        Err(m) => json!({"panic": m}),
+    };
+    let full = || detail(json!({"observed_inside_pool": show(got), "observed_outside_any_pool": show(outside), "expected": {"shape": [e.m, e.n], "data": jf(&e.plain)}}));
+    match got {
+        Err(_) => {
+            rep.check(&format!("C05.{}.no_panic", api), regime, false, full);
+        }
+        Ok((shape, v)) => {
+            rep.check(&format!("C05.{}.no_panic", api), regime, true, || json!(null));
+            let shape_ok = v.len() == e.m * e.n && shape.map_or(true, |s| s == [e.m, e.n]);
+            if rep.check(&format!("C05.{}.shape", api), regime, shape_ok, full) {
+                rep.check(&format!("C05.{}.entries", api), regime, v.iter().zip(&e.plain).all(|(p, q)| p == q), full);
+            }
+            if let Ok((oshape, ov)) = outside {
+                let same = oshape == shape && ov.len() == v.len() && ov.iter().zip(v).all(|(p, q)| p.to_bits() == q.to_bits());
+                rep.check("C05.pool.same_as_outside", regime, same, full);
+            }
+        }
+    }
+}
+
+fn pool_case(i: usize, pools: &[(usize, rayon::ThreadPool)], rng: &mut Rng, rep: &mut Report) {
+    let class = i % POOL_SHAPES.len();
+    // a "large" dimension: 64 half of the time, else 40..=64; a "small" one: 1..=40 (8 or fewer a third of the time)
+    let big = |rng: &mut Rng| if rng.bool() { 64 } else { rng.usize(40, 64) };
+    let small = |rng: &mut Rng| if rng.chance(0.33) { rng.usize(1, 8) } else { rng.usize(1, 40) };
+    let (m, l, n) = match class {
+        0 => (small(rng), big(rng), big(rng)),
+        1 => (big(rng), big(rng), small(rng)),
+        2 => (big(rng), small(rng), big(rng)),
+        3 => (rng.usize(1, 64), rng.usize(1, 64), rng.usize(1, 64)),
+        _ => match rng.usize(0, 2) {
+            0 => (1, big(rng), rng.usize(1, 64)),
+            1 => (rng.usize(1, 64), big(rng), 1),
+            _ => (1, rng.usize(1, 64), 1),
+        },
+    };
+    rep.seen(POOL_SHAPES[class], 1);
+    if m * l * n >= 1 << 16 {
+        rep.seen("pool:multiply-adds>=2^16", 1);
+    }
+    if m <= 8 {
+        rep.seen("pool:rows<=8", 1);
+    }
+    let maxd = m.max(l).max(n);
+    let note_rows = |rep: &mut Report, rows: usize, t: usize| {
+        rep.seen(if rows < t { "pool:result-rows<threads" } else { "pool:result-rows>=threads" }, 1);
+    };
+    for (fi, &(ta, tb)) in FLAGS.iter().enumerate() {
+        let (ar, ac) = if ta { (l, m) } else { (m, l) };
+        let (br, bc) = if tb { (n, l) } else { (l, n) };
+        let a = rng.ints(ar * ac, -50, 50);
+        let b = rng.ints(br * bc, -50, 50);
+        let e = define(&a, ar, ac, ta, &b, br, bc, tb, false).expect("conformable by construction");
+        let bs = rng.usize(1, 2 * maxd);
+        let form = rng.usize(0, 3);
+        rep.distinct(Hasher::new().s("pool").u(m as u64).u(l as u64).u(n as u64).u(fi as u64).finish(), m * l * n > 1);
+        let mm = || -> DotOut { (None, matmul(&a, &b, ar, br, ta, tb)) };
+        let bl = || -> DotOut { (None, matmul_blocked(&a, &b, ar, br, ta, tb, bs)) };
+        let dt = || dot_call(MM, fi, form, &a, ar, ac, &b, br, bc);
+        let (out_mm, out_bl, out_dt) = (guard(mm), guard(bl), guard(dt));
+        for (t, pool) in pools {
+            let regime = format!("pool:threads={}", t);
+            note_rows(rep, m, *t);
+            let det = |api: String, extra: Value| {
+                json!({"api": api, "called_inside": format!("rayon::ThreadPoolBuilder::new().num_threads({}).build().unwrap().install(..)", t), "data_kind": "integer (exact)",
+                       "a": jf(&a), "a_stored_shape": [ar, ac], "b": jf(&b), "b_stored_shape": [br, bc], "transpose_a": ta, "transpose_b": tb, "op_shapes": {"m": m, "l": l, "n": n}, "result": extra})
+            };
+            let g = guard(|| pool.install(mm));
+            pool_judge(rep, "matmul", &regime, &g, &out_mm, &e, &|x| det("matmul".into(), x));
+            let g = guard(|| pool.install(bl));
+            pool_judge(rep, "blocked", &regime, &g, &out_bl, &e, &|x| det(format!("matmul_blocked bsize={}", bs), x));
+            let g = guard(|| pool.install(dt));
+            pool_judge(rep, "dot", &regime, &g, &out_dt, &e, &|x| det(format!("Matrix.{}(Matrix) form {}", METHODS[fi], FORMS[form]), x));
+        }
+        // a vector on either side (a transpose request on a promoted vector does nothing)
+        if n == 1 || m == 1 {
+            let kind = if m == 1 && n == 1 { VV } else if n == 1 { MV } else { VM };
+            let (va, var, vac) = if kind == MV { (a.clone(), ar, ac) } else { (rng.ints(l, -50, 50), 1, l) };
+            let (vb, vbr, vbc) = if kind == VM { (b.clone(), br, bc) } else { (rng.ints(l, -50, 50), l, 1) };
+            let (tae, tbe) = (ta && kind == MV, tb && kind == VM);
+            let ev = define(&va, var, vac, tae, &vb, vbr, vbc, tbe, false).expect("conformable by construction");
+            let dv = || dot_call(kind, fi, form, &va, var, vac, &vb, vbr, vbc);
+            let out_dv = guard(dv);
+            for (t, pool) in pools {
+                let regime = format!("pool:threads={}", t);
+                let g = guard(|| pool.install(dv));
+                pool_judge(rep, "dot", &regime, &g, &out_dv, &ev, &|x| {
+                    json!({"api": format!("{}::{} form {}", KINDS[kind], METHODS[fi], FORMS[form]), "called_inside": format!("a rayon pool of {} threads", t), "left": jf(&va), "right": jf(&vb), "op_shapes": {"m": ev.m, "l": ev.l, "n": ev.n}, "result": x})
+                });
+            }
+        }
+    }
+    // xtx: x stored l x n, result n x n
+    let x = rng.ints(l * n, -50, 50);
+    let e = define(&x, l, n, true, &x, l, n, false, false).unwrap();
+    let xx = || -> DotOut { (None, xtx(&x, l)) };
+    let out_xx = guard(xx);
+    for (t, pool) in pools {
+        let regime = format!("pool:threads={}", t);
+        note_rows(rep, n, *t);
+        let g = guard(|| pool.install(xx));
+        pool_judge(rep, "xtx", &regime, &g, &out_xx, &e, &|r| json!({"api": "xtx", "called_inside": format!("a rayon pool of {} threads", t), "x": jf(&x), "rows": l, "cols": n, "result": r}));
+    }
+}
+
 pub fn run(cfg: &Cfg, rep: &mut Report) {
     if !cfg.miri() {
         if let Ok(spec) = std::env::var(FRESH_ENV) {
@@ -1172,6 +1331,7 @@ pub fn run(cfg: &Cfg, rep: &mut Report) {
          (Miri smoke: 2 block sizes, 1 Dot method and 1 ownership form per point, rotating). \
          value-class rejection probes: the grid m,n in 1..=3, la != lb in 1..=5 x 4 flag combinations x 10 operand value classes (class in both / left / right operand) through matmul, matmul_blocked and one Dot method (operand kinds and ownership forms rotating), plus random shapes up to 24 (half of them with operands of equal length). \
          fresh-process children (native full runs): 12 (quick) / 96 (thorough) re-executions of the harness whose first library call is a product with a transposed r x c operand (r, c >= 2), followed by every other factorisation of r*c elements through matmul TN / NT, xtx and the transposing Dot methods. \
+         pool family (native): 300 (quick) / 2000 (thorough) integer shapes up to 64 (few rows, few columns, short inner dimension, ordinary, vector operand) x 4 flag pairs through matmul, matmul_blocked, one Dot method and xtx inside rayon pools of 1, 2, 3, 17, 33, 48, 64, 128 threads, against the definition and the same call outside any pool. \
          non-trivial = m*l*n > 1; distinct by (api, regime, shapes, flags, block size / ownership form, data kind)"
     );
     rep.assume("entries are finite; integer entries |a| <= 50 with inner dimension <= 64 so every partial sum is exact; real entries are N(0.25, 3^2) (no overflow/underflow in products)");
@@ -1273,6 +1433,31 @@ pub fn run(cfg: &Cfg, rep: &mut Report) {
             random_real(cfg, &mut t, rng, i);
             t.flush(rep);
         });
+        // ---- products inside thread pools of other sizes (stream 7) ---------------------------------
+        rep.assume("the size of the ambient rayon pool is not part of the quantifier: integer products (|a| <= 50, shapes up to 64: few rows / few columns / short inner dimension against dimensions of 40..=64, ordinary shapes, vector operands) through matmul (4 flag pairs), matmul_blocked, xtx and the Dot methods inside ThreadPool::install of 1, 2, 3, 17, 33, 48, 64 and 128 threads (lite layers: 2 and 48) must equal the definition and, bit for bit, the same call outside any pool; not run under Miri");
+        let sizes: &[usize] = if cfg.lite { &[2, 48] } else { &POOL_SIZES };
+        let mut pools: Vec<(usize, rayon::ThreadPool)> = Vec::new();
+        for &t in sizes {
+            match rayon::ThreadPoolBuilder::new().num_threads(t).build() {
+                Ok(p) => pools.push((t, p)),
+                Err(e) => rep.inconclusive(format!("C05: could not build a rayon pool of {} threads: {}", t, e)),
+            }
+        }
+        par_cases(cfg, rep, 7, cfg.pick(300, 2000, 10), |i, rng, rep| pool_case(i, &pools, rng, rep));
+        drop(pools);
+        for &t in sizes {
+            rep.require(&format!("pool:threads={}", t), 1);
+        }
+        for s in POOL_SHAPES {
+            rep.require(s, 1);
+        }
+        for s in ["pool:result-rows<threads", "pool:result-rows>=threads"] {
+            rep.require(s, 1);
+        }
+        if !cfg.lite {
+            rep.require("pool:multiply-adds>=2^16", 1);
+            rep.require("pool:rows<=8", 1);
+        }
         // ---- products in fresh processes (state keyed by the first caller of a process) ----------
         if !cfg.lite && cfg.shard.1 <= 1 {
             fresh_parent(cfg, rep);
